@@ -180,6 +180,42 @@ def lm_with_layers_multi(l0: Dict[int, int], l1: Dict[int, int], l2: Dict[int, i
     return l0 == c0 and l1 == c1 and l2 == c2
 
 
+def lm_named_lookup_consistent(l1: Dict[int, int], l2: Dict[int, int], l3: Dict[int, int], k: int, shape: int) -> bool:
+    """
+    pre: len(l1) <= 2 and len(l2) <= 2 and len(l3) <= 2 and 0 <= shape < 4
+    post: _
+    """
+    # whatever is nested in whatever, named or not: get_with_layer_name returns the value that plain lookup returns, the default
+    # exactly when the key is absent, and the name of the (outermost named) layer the value came from
+    shape = _pick(shape, 0, 3)
+    if shape == 0:
+        m = LayeredMapping(LayeredMapping(l1), LayeredMapping(l2, name="lower"), l3)
+        names = [None, "lower", None]
+    elif shape == 1:
+        m = LayeredMapping(l1, name="top").with_layers(l2)  # copy: an unnamed mapping around [l2, <top>]
+        names = ["top", None, None]
+        l1, l2 = l2, l1
+        names = [None, "top", None]
+    elif shape == 2:
+        m = LayeredMapping(LayeredMapping(LayeredMapping(l1), l2), LayeredMapping(l3, name="ctx"))
+        names = [None, None, "ctx"]
+    else:
+        m = LayeredMapping(LayeredMapping(l1, name="data"), LayeredMapping(LayeredMapping(l2), name="outer"), l3)
+        names = ["data", "outer", None]
+    layers = [l1, l2, l3] if shape != 1 else [l1, l2, {}]
+    want_v, want_n = -7, None
+    for layer, nm in zip(layers, names):
+        if k in layer:
+            want_v, want_n = layer[k], nm
+            break
+    got_v, got_n = m.get_with_layer_name(k, default=-7)
+    if got_v != want_v or got_v != m.get(k, -7) or (k in m) != (want_v != -7 or any(k in l for l in layers)):
+        return False
+    if got_n != want_n:
+        return False
+    return m.get_layer_name_for_key(k) == want_n
+
+
 def lm_layer_names(l1: Dict[int, int], l2: Dict[int, int], k: int, v: int, w: bool) -> bool:
     """
     pre: len(l1) <= 2 and len(l2) <= 2 and 0 <= k <= 3
